@@ -9,9 +9,10 @@ import os
 
 from translate import cats
 
-from . import c01, codec, genmod, schemagen
+from . import c01, c03, codec, common, genmod, schemagen
 
 DRIVER = 'c01'
+EXTRA_DRIVERS = ('c03',)
 
 RULE = (
 	'random recombinations of the shipped constructs from VERIF_SEED (aliases of every width/sign, buffers, enums, flag enums, const/reserved members, '
@@ -32,6 +33,11 @@ def run(ctx):
 	scratch = ctx.tmpdir()
 	run_id = len(os.listdir(scratch))
 	package = genmod.ScratchPackage(scratch, f'scratch_c15_{os.getpid()}_{run_id}')
+	body_driver = None
+	try:
+		body_driver = common.Driver('c03')
+	except Exception as ex:  # pylint: disable=broad-except
+		ctx.notes.append(f'emission-model driver not available: {ex}')
 	schema_count = 60 if ctx.search_mode else ctx.scale(12, 200)  # the failing-input search after a broken obligation stays within a few minutes
 	features = {}
 	for index in range(schema_count):
@@ -63,6 +69,9 @@ def run(ctx):
 			ctx.count('schemas-outside-model')
 			ctx.notes.append(f'schema outside the modelled dialect: {ex}')
 			continue
+		# the emitted serialize / size bodies against the text the emission model derives from the IR (static, class by class)
+		if body_driver is not None:
+			c03.compare_bodies(ctx, body_driver, f'gen{index}', schema, package.text(f'gen{index}a'))
 		net = codec.Network(f'gen{index}', schema=schema, module=module)
 		reflected = c01.reflect_classes(module)
 		if sorted(net.order) != reflected:
@@ -79,6 +88,8 @@ def run(ctx):
 					failure.case['schema'] = text
 	for feature, amount in sorted(features.items()):
 		ctx.count(f'feature:{feature}', amount)
+	if body_driver is not None:
+		body_driver.close()
 
 
 def crash_signature(stderr):
